@@ -241,11 +241,11 @@ func (x *pmmx) resolveRoles() {
 	m := x.m
 	pmmPkg := m.pkg("mm/pmm")
 	// mark role: the function outside the two API methods that sets and clears bits
-	for _, fn := range m.Funcs {
+	for _, fn := range m.scanFuncs() {
 		if fn.Pkg != pmmPkg || fn == x.bAlloc || fn == x.bFree {
 			continue
 		}
-		bs := x.bitStores(newIG(m, fn, nil))
+		bs := x.bitStores(scanIG(m, fn, nil))
 		set, clr := false, false
 		for _, b := range bs {
 			set = set || b.kind == "set"
@@ -253,22 +253,24 @@ func (x *pmmx) resolveRoles() {
 		}
 		if set && clr {
 			x.markRole = fn
+			m.anchor(fn)
 		}
 	}
 	if x.markRole == nil {
 		return
 	}
-	for _, fn := range m.Funcs {
+	for _, fn := range m.scanFuncs() {
 		if fn.Pkg != pmmPkg {
 			continue
 		}
-		g := newIG(m, fn, nil)
+		g := scanIG(m, fn, nil)
 		marks := g.callNodes(x.markRole)
 		if len(marks) == 0 {
 			continue
 		}
 		if len(g.callNodes(x.bootAlloc)) > 0 {
 			x.replayRole = fn
+			m.anchor(fn)
 			continue
 		}
 		// kernel role: marks a frame counter running from kernelStartFrame to <= kernelEndFrame
@@ -286,6 +288,7 @@ func (x *pmmx) resolveRoles() {
 				})
 				if startOK && endOK {
 					x.kernelRole = fn
+					m.anchor(fn)
 				}
 			}
 		}
@@ -679,8 +682,8 @@ func (x *pmmx) ruleClearOnlyByFree() {
 	c, m := x.c, x.m
 	c.floor("C01.R5", 3)
 	// clearing stores
-	for _, fn := range m.Funcs {
-		g := newIG(m, fn, nil)
+	for _, fn := range m.scanFuncs() {
+		g := scanIG(m, fn, nil)
 		for _, bs := range x.bitStores(g) {
 			if bs.kind == "set" {
 				continue
